@@ -187,6 +187,11 @@ def run(chk, tier):
     chk.assumptions.append("environment variables the compiler documents as inputs (ALDORROOT, ALDORARGS, INCPATH, LIBPATH, GC_*, ALDOR_TERM...) "
                            "are options, not environment: the polluted environment never sets them")
     chk.assumptions.append("each run starts in a fresh directory that holds only the sources (stale outputs change the diagnostics by design)")
+    chk.assumptions.append("a fatal error ends a multi-file invocation: files whose own compilation ends the invocation are placed last in "
+                           "their group, files that a failed invocation never started are not observed for that run, and the exit status of "
+                           "one invocation is compared with that of several only as zero / non-zero")
+    chk.assumptions.append("an invocation that does not exit within 100 times its estimated CPU time plus two minutes, and again within "
+                           "three times that, is observed as a hang (a different observation than any terminated run)")
     chk.assumptions.append("the working-directory axis is two directories of different depth and name length, sources addressed by relative name")
 
 
@@ -274,8 +279,9 @@ that are not covered by a known finding.
 
  M1 genc.c gc0IdHashInBuf: hashNum = (strHash(s) + address of s) % VAR_HASH          CAUGHT  .c on gc / aslr (file and in-batch scope)
  M2 emit.c emitTheLisp: header names osCurDirName()/file                              no effect: osCurDirName() is "." on Unix (output unchanged)
- M2b emit.c emitTheLisp: header names getcwd()/file (absolute path recorded)          CAUGHT  .lsp (run with per-run directories: on every axis;
-                                                                                              since then equal cwd values share one path, see Runner)
+ M2b emit.c emitTheLisp: header names getcwd()/file (absolute path recorded)          CAUGHT  .lsp on cwd only (18 files; plus the in-batch runs whose
+                                                                                              cwd differs) -- equal cwd values share one absolute path
+                                                                                              through a private mount namespace per invocation
  M3 tform.c tfHash: symHash(symeId) (address of the interned symbol) for strHash      CAUGHT  .ao .fm .c .lsp on gc / aslr
  M4 emit.c emitTheLisp: extra header line with getpid()                               CAUGHT  .lsp on rep (same image started twice) and all others
  M5 emit.c C header text depends on getenv("USER")                                    CAUGHT  .c on env
